@@ -121,6 +121,14 @@ Theorem C03_bitreader_script_refines : forall data ops,
 Proof. exact bitreader_script_refines. Qed.
 Print Assumptions C03_bitreader_script_refines.
 
+(** ... the discipline has a sound boolean checker, which the runner evaluates on every script of
+    the correspondence run; on the scripts it accepts the specification side is compared too. *)
+Theorem C03_bitreader_script_refines_checked : forall data ops,
+  bytes_ok data -> wf_scriptb (8 * Z.of_nat (length data)) ops 0 56 = true ->
+  br_run ops (br_new data) = spec_script (le_value data) ops 0.
+Proof. exact bitreader_script_refines_checked. Qed.
+Print Assumptions C03_bitreader_script_refines_checked.
+
 (** The read that crosses the end of a buffer of at least 8 bytes raises the
     end-of-stream flag (shorter buffers: only beyond bit 64, as the code tests
     bitPos > 64). *)
@@ -243,6 +251,14 @@ Theorem C03_format_constants_match_spec :
   WebpGen.Vp8lRoles.lossless_role_base_alphabet_sizes = [256 + 24; 256; 256; 256; 40].
 Proof. exact format_constants_match_spec. Qed.
 Print Assumptions C03_format_constants_match_spec.
+
+(** The sizes the table models are written with (root size 8, mask 255, 64 packed slots of 6
+    window bits, eligibility bound 6) are the code's. *)
+Theorem C03_table_constants_match_models :
+  WebpGen.Consts.lossless_HuffmanTableBits = 8 /\ WebpGen.Consts.lossless_HuffmanTableMask = 2 ^ 8 - 1 /\
+  WebpGen.Consts.lossless_HuffmanPackedBits = 6 /\ WebpGen.Consts.lossless_HuffmanPackedTableSize = 2 ^ 6.
+Proof. exact table_constants_match_models. Qed.
+Print Assumptions C03_table_constants_match_models.
 
 (** ** Emitter / decoder *)
 
